@@ -325,6 +325,12 @@ class ChainState:
             **{name: copy.copy(val) for name, val in self._variables.items()},
         )
 
+    def __copy__(self) -> ChainState:
+        # The default implementation would share the dictionary of variables with the
+        # original while giving the copy its own cache, so that an assignment through
+        # one of the two changes the variable of the other without clearing its cache
+        return self.copy(read_only=self._read_only)
+
     def __str__(self) -> str:
         return (
             "(\n " + ",\n ".join([f"{k}={v}" for k, v in self._variables.items()]) + ")"
